@@ -559,10 +559,49 @@ def os_exhaustive_single(kinds=("set", "list", "gen", "oset"), universe=3, maxar
                         arg = ["oset", 1]
                     else:
                         arg = [kind, a]
-                    op = {"op": name, "r": 0, "args": [arg], "via": "method"}
-                    if name in OS_BINARY_NEW:
-                        op["dst"] = 2
-                    yield 3, pre + [op]
+                    for via in (("method", "op") if kind in ("set", "oset", "frozenset") else ("method",)):
+                        op = {"op": name, "r": 0, "args": [arg], "via": via}
+                        if name in OS_BINARY_NEW:
+                            op["dst"] = 2
+                        yield 3, pre + [op]
+
+
+def os_predicate_checks(ns, universe=3, maxarg=3):
+    """OrderedSet predicates and comparisons against the builtin set, small scope, always run:
+    issubset / issuperset / isdisjoint x argument kinds (duplicates included), == != <= < >= >
+    against set / frozenset / OrderedSet.  Returns [(key, case, detail)]."""
+    out = []
+    selves = [list(p) for k in range(universe + 1) for p in itertools.permutations(range(universe), k)]
+    args = [list(p) for k in range(maxarg + 1) for p in itertools.product(range(universe + 1), repeat=k)]
+    mk = {"list": list, "tuple": tuple, "iter": iter, "set": set, "frozenset": frozenset, "keys": lambda v: dict.fromkeys(v, 1).keys(),
+          "oset": lambda v: ns.OrderedSet(v)}
+    cmps = {"eq": lambda x, y: x == y, "ne": lambda x, y: x != y, "le": lambda x, y: x <= y, "lt": lambda x, y: x < y,
+            "ge": lambda x, y: x >= y, "gt": lambda x, y: x > y}
+    for me in selves:
+        ref = set(POOL[i] for i in me)
+        for a in args:
+            vals = [POOL[i] for i in a]
+            for kind, f in mk.items():
+                for name in ("issubset", "issuperset", "isdisjoint"):
+                    o = ns.OrderedSet(POOL[i] for i in me)
+                    try:
+                        got = getattr(o, name)(f(vals))
+                    except Exception as e:  # noqa: BLE001
+                        got = "E:" + exc_name(e)
+                    exp = getattr(ref, name)(set(vals))
+                    if got is not exp or [IDX[v] for v in o] != me:
+                        out.append(("orderedset-%s-%s-differs-from-set" % (name, kind), {"kind": "oset-pred", "self": me, "arg": a, "argkind": kind, "op": name}, "got %r expected %r, self now %s" % (got, exp, list(o))))
+                if kind in ("set", "frozenset", "oset"):
+                    for name, c in cmps.items():
+                        o = ns.OrderedSet(POOL[i] for i in me)
+                        try:
+                            got = (c(o, f(vals)), c(f(vals), o))
+                        except Exception as e:  # noqa: BLE001
+                            got = "E:" + exc_name(e)
+                        exp = (c(ref, set(vals)), c(set(vals), ref))
+                        if got != exp:
+                            out.append(("orderedset-%s-%s-differs-from-set" % (name, kind), {"kind": "oset-pred", "self": me, "arg": a, "argkind": kind, "op": name}, "got %r expected %r" % (got, exp)))
+    return out
 
 
 # ====================================================================== IdentitySet
@@ -616,6 +655,13 @@ def is_build_arg(pool, regs, a):
         return (o for o in objs)
     if kind == "iter":
         return iter(objs)
+    if kind == "values":
+        # a sized, non-sequence view that can hold the same object several times
+        return dict(enumerate(objs)).values()
+    if kind == "keys":
+        # keys view: equality-keyed, so equal-but-distinct objects collapse (the actual content is
+        # read back by the caller)
+        return dict.fromkeys(objs, 1).keys()
     raise ValueError(kind)
 
 
@@ -714,7 +760,7 @@ def is_run_sequence(ns, nregs, ops):
                 argids = [idx[id(o)] for o in argobj]
                 argtok = "R%d" % a[1]
             else:
-                argids = list(a[1])
+                argids = [idx[id(o)] for o in argobj] if a[0] == "keys" else list(a[1])
                 argtok = "L" + dots(argids)
         req.append(is_op_token(op, argtok))
         exp_ret, tgt, exp_list = is_reference(op, cur, argids or [])
@@ -931,6 +977,57 @@ def is_gen_sequence(rng, maxlen=10):
                 op["dst"] = rng.randrange(nregs)
             ops.append(op)
     return nregs, ops
+
+
+def is_exhaustive_single(kinds=("list", "tuple", "iter", "values", "keys", "idset"), universe=3, maxarg=3):
+    """small-scope, always-run block: every binary IdentitySet operation and comparison
+    (issubset / issuperset / <= / >= / == / != / < / >, union / intersection / difference /
+    symmetric_difference and their in-place forms, methods and operators) x every self over
+    `universe` objects (sizes 0..universe, one reversed order) x EVERY argument sequence over
+    universe+1 objects up to `maxarg` long — duplicated references ([a, a], [a, b, a]) included —
+    x argument kinds.  Yields (nregs, ops)."""
+    selves = []
+    for k in range(universe + 1):
+        for p in itertools.combinations(range(universe), k):
+            selves.append(list(p))
+    selves.append(list(range(universe))[::-1])
+    args = []
+    for k in range(maxarg + 1):
+        for p in itertools.product(range(universe + 1), repeat=k):
+            args.append(list(p))
+    for me in selves:
+        pre0 = [{"op": "new", "dst": 0, "arg": ["list", me]}]
+        for a in args:
+            dup = len(set(a)) != len(a)
+            for kind in kinds:
+                if kind == "idset":
+                    if dup:
+                        continue
+                    pre = pre0 + [{"op": "new", "dst": 1, "arg": ["list", a]}]
+                    arg = ["idset", 1]
+                    vias = ("method", "op")
+                elif kind == "keys":
+                    if len(a) > 1:
+                        continue  # the pool objects are all equal: a keys view holds at most one
+                    pre, arg, vias = pre0, ["keys", a], ("method",)
+                else:
+                    pre, arg, vias = pre0, [kind, a], ("method",)
+                for via in vias:
+                    # the predicates first (they do not change anything), then each operation on a fresh self
+                    preds = [{"op": n, "r": 0, "a": arg, "via": via} for n in ("issubset", "issuperset")]
+                    if kind == "idset" and via == "op":
+                        preds += [{"op": n, "r": 0, "o": 1} for n in ("eq", "ne", "lt", "gt")]
+                        preds += [{"op": n, "r": 1, "o": 0} for n in ("lt", "gt")]
+                    if kind in ("iter", "gen"):
+                        for q in preds:  # one-shot iterators: one predicate per sequence
+                            yield 3, pre + [q]
+                    else:
+                        yield 3, pre + preds
+                    for name in ("union", "inter", "diff", "symdiff", "update", "interu", "diffu", "symdiffu"):
+                        op = {"op": name, "r": 0, "a": arg, "via": via}
+                        if name in IS_NEW:
+                            op["dst"] = 2
+                        yield 3, pre + [op]
 
 
 # ====================================================================== immutabledict
